@@ -1,12 +1,58 @@
 // ---- codec inverse lemmas (include after bytes.rs when needed) ----
-pub proof fn lemma_codec16(big: bool, x: u16) ensures e16(big, x).len() == 2, d16(big, e16(big, x), 0) == x {}
-pub proof fn lemma_codec32(big: bool, x: u32) ensures e32(big, x).len() == 4, d32(big, e32(big, x), 0) == x {}
-pub proof fn lemma_codec64(big: bool, x: u64) ensures e64(big, x).len() == 8, d64(big, e64(big, x), 0) == x {}
-/// decoding at offset k inside a concatenation reads the embedded encoding
-pub proof fn lemma_d32_at(big: bool, pre: Seq<u8>, x: u32, post: Seq<u8>)
-    ensures d32(big, pre + e32(big, x) + post, pre.len() as int) == x
+pub proof fn lemma_codec16(big: bool, x: u16) ensures e16(big, x).len() == 2, d16(big, e16(big, x), 0) == x { reveal(byte_of); }
+pub proof fn lemma_codec32(big: bool, x: u32) ensures e32(big, x).len() == 4, d32(big, e32(big, x), 0) == x { reveal(byte_of); }
+pub proof fn lemma_split64(x: u64)
+    ensures ({
+        let lo = (x % 4294967296) as u32; let hi = (x / 4294967296) as u32;
+        &&& byte_of(x as int, 0) == byte_of(lo as int, 0) && byte_of(x as int, 1) == byte_of(lo as int, 1)
+        &&& byte_of(x as int, 2) == byte_of(lo as int, 2) && byte_of(x as int, 3) == byte_of(lo as int, 3)
+        &&& byte_of(x as int, 4) == byte_of(hi as int, 0) && byte_of(x as int, 5) == byte_of(hi as int, 1)
+        &&& byte_of(x as int, 6) == byte_of(hi as int, 2) && byte_of(x as int, 7) == byte_of(hi as int, 3)
+        &&& x as int == lo as int + 4294967296 * (hi as int)
+    })
 {
-    let s = pre + e32(big, x) + post; let k = pre.len() as int;
-    assert(s[k] == e32(big, x)[0]); assert(s[k + 1] == e32(big, x)[1]); assert(s[k + 2] == e32(big, x)[2]); assert(s[k + 3] == e32(big, x)[3]);
+    reveal(byte_of);
+    assert(x % 256 == (x % 4294967296) % 256) by (bit_vector);
+    assert(x / 256 % 256 == (x % 4294967296) / 256 % 256) by (bit_vector);
+    assert(x / 65536 % 256 == (x % 4294967296) / 65536 % 256) by (bit_vector);
+    assert(x / 16777216 % 256 == (x % 4294967296) / 16777216 % 256) by (bit_vector);
+    assert(x / 4294967296 % 256 == (x / 4294967296) % 256) by (bit_vector);
+    assert(x / 1099511627776 % 256 == (x / 4294967296) / 256 % 256) by (bit_vector);
+    assert(x / 281474976710656 % 256 == (x / 4294967296) / 65536 % 256) by (bit_vector);
+    assert(x / 72057594037927936 % 256 == (x / 4294967296) / 16777216 % 256) by (bit_vector);
+    assert(x == (x % 4294967296) + 4294967296 * (x / 4294967296)) by (bit_vector);
+    assert(x / 4294967296 <= 4294967295) by (bit_vector);
+    assert(x % 4294967296 <= 4294967295) by (bit_vector);
 }
-
+pub proof fn lemma_codec64(big: bool, x: u64) ensures e64(big, x).len() == 8, d64(big, e64(big, x), 0) == x
+{
+    let lo = (x % 4294967296) as u32; let hi = (x / 4294967296) as u32;
+    lemma_split64(x);
+    lemma_codec32(big, lo); lemma_codec32(big, hi);
+}
+/// decoding inside a larger buffer: if the 4 bytes at s[k..k+4] are e32(big, x) then d32 reads x
+pub proof fn lemma_d32_embedded(big: bool, s: Seq<u8>, k: int, x: u32)
+    requires 0 <= k, k + 4 <= s.len(), s.subrange(k, k + 4) == e32(big, x),
+    ensures d32(big, s, k) == x
+{
+    lemma_codec32(big, x);
+    let t = s.subrange(k, k + 4);
+    assert(t[0] == s[k] && t[1] == s[k + 1] && t[2] == s[k + 2] && t[3] == s[k + 3]);
+}
+pub proof fn lemma_d16_embedded(big: bool, s: Seq<u8>, k: int, x: u16)
+    requires 0 <= k, k + 2 <= s.len(), s.subrange(k, k + 2) == e16(big, x),
+    ensures d16(big, s, k) == x
+{
+    lemma_codec16(big, x);
+    let t = s.subrange(k, k + 2);
+    assert(t[0] == s[k] && t[1] == s[k + 1]);
+}
+pub proof fn lemma_d64_embedded(big: bool, s: Seq<u8>, k: int, x: u64)
+    requires 0 <= k, k + 8 <= s.len(), s.subrange(k, k + 8) == e64(big, x),
+    ensures d64(big, s, k) == x
+{
+    lemma_codec64(big, x);
+    let t = s.subrange(k, k + 8);
+    assert(t[0] == s[k] && t[1] == s[k + 1] && t[2] == s[k + 2] && t[3] == s[k + 3]
+        && t[4] == s[k + 4] && t[5] == s[k + 5] && t[6] == s[k + 6] && t[7] == s[k + 7]);
+}
